@@ -150,6 +150,15 @@ class DoomedGen:
             if op is None or 'iso' not in op:
                 return None
             op['rr'] = ''.join(r.choice(G.RRCHARS.replace('.', '')) for _ in range(n))
+            if kind == 'add_dir' and m.cfg['level'] < 4 and r.random() < 0.6:
+                # at relocation depth: the relocation directory must not be made for a directory that is then refused
+                deep = [d for d in m.dirs('iso') if m.depth(d) == 7]
+                if deep:
+                    nm = M.split(op['iso'])[1]
+                    cand = M.join(r.choice(deep), nm)
+                    if m.free('iso', cand):
+                        op['iso'] = cand
+                        return _finish(op, 'rr-overflows-continuation-area:add_dir-at-relocation-depth', True, 'name-rule')
         return _finish(op, 'rr-overflows-continuation-area:%s' % kind, True, 'name-rule')
 
     def symlink_other_namespace_taken(self):
@@ -296,6 +305,18 @@ class DoomedGen:
             return None
         api = r.choice(('rm_file', 'rm_link'))
         return _finish({'op': api, 'ns': ns, 'path': ghost}, 'missing-path:%s:%s' % (api, ns), False, 'missing-path')
+
+    def link_to_directory(self):
+        """add_hard_link whose old path is a directory."""
+        m, r = self.m, self.r
+        op = self.g.g_add_link()
+        if op is None or op['old_ns'] == 'bootcat':
+            return None
+        dirs = [p for p, n in m.iter_ns(op['old_ns']) if n.kind == 'dir' and p != '/']
+        if not dirs:
+            return None
+        op['old'] = r.choice(dirs)
+        return _finish(op, 'wrong-type:add_hard_link-from-directory:%s' % op['old_ns'], False, 'wrong-type')
 
     def rm_dir_partly_nonempty(self):
         """rm_directory naming several namespaces, empty in the first ones and not empty in a later one."""
@@ -497,7 +518,7 @@ class DoomedGen:
 
     GENS = ('bad_iso_file_name', 'bad_iso_dir_name', 'joliet_too_long', 'udf_too_long', 'rr_too_long', 'symlink_other_namespace_taken', 'rm_dir_partly_nonempty', 'udf_symlink_component_too_long', 'bad_new',
             'depth', 'duplicate', 'duplicate', 'duplicate', 'missing_parent',
-            'missing_parent', 'wrong_type_rm', 'wrong_type_rm', 'eltorito_protected', 'wrong_extension', 'bad_boot', 'bad_hybrid', 'bad_relocated_name', 'state',
+            'missing_parent', 'wrong_type_rm', 'wrong_type_rm', 'eltorito_protected', 'wrong_extension', 'bad_boot', 'bad_hybrid', 'bad_relocated_name', 'link_to_directory', 'state',
             'io_fault_boot', 'io_fault_write')
 
     NAME_RULE_GENS = ('bad_iso_file_name', 'bad_iso_file_name', 'bad_iso_dir_name', 'joliet_too_long', 'depth', 'duplicate', 'duplicate', 'duplicate')
